@@ -353,6 +353,46 @@ def coefficient_and_state_pass(ctx):
                     continue
                 if got != exp:
                     ctx.violation('division-route', case, str(exp)[:200], str(got)[:200], key='div:route:registered-symbolic')
+    # (a3) nested quotients: the divisor's coefficients are themselves quotients (functions registered with symbolic=True called
+    # with numbers; multivectors whose RationalPolynomial coefficients have a denominator)
+    def f_nested(u, v, w): return u / (v / w)
+    def f_invinv(u, v, w): return u.inv().inv() + 0 * (v | w)
+    def f_chain(u, v, w): return (u / v) / w
+    for sig in ([1, 1], [1, 1, 1], [1, 1, -1]):
+        alg = make_algebra(sig)
+        N = 2 ** alg.d
+        for f, comp in ((f_nested, lambda u, v, w: u * (v * w.inv()).inv()), (f_invinv, lambda u, v, w: u), (f_chain, lambda u, v, w: u * v.inv() * w.inv())):
+            for _ in range(2 if ctx.quick else 6):
+                ks_ = [rng.choice([[0], [1], [N - 1], [3 % N], [1, 2 % N], [0, N - 1]]) for _ in range(3)]
+                ks_ = [list(dict.fromkeys(k)) for k in ks_]
+                mvs = [MultiVector.fromkeysvalues(alg, tuple(k), [Fraction(rng.choice((2, 3, 5, -7, 11))) for _ in k]) for k in ks_]
+                case = {'sig': sig, 'registered_symbolic': f.__name__, 'keys': ks_, 'values': [[str(c) for c in m.values()] for m in mvs]}
+                ctx.case(case, tag='registered-symbolic-nested-division')
+                try:
+                    exp = mv_to_dict(comp(*mvs))
+                    got = mv_to_dict(alg.register(symbolic=True)(f)(*mvs))
+                except ZeroDivisionError:
+                    continue
+                except Exception as ex:
+                    ctx.count('registered-symbolic-nested-division:raises:' + type(ex).__name__)
+                    continue
+                if got != exp:
+                    ctx.violation('division-route', case, str(exp)[:200], str(got)[:200], key='div:route:registered-symbolic:nested')
+        for kx in ([1, 2 % N], [0, N - 1], [1]):
+            kx = list(dict.fromkeys(kx))
+            x = MultiVector.fromkeysvalues(alg, tuple(kx), [RationalPolynomial([[1, f'p{k}']], [[1, f'q{k}']]) for k in kx])
+            case = {'sig': sig, 'kx': kx, 'coefficients': 'RationalPolynomial quotients p_k / q_k'}
+            ctx.case(case, tag='coefficients:RationalPolynomial-quotients')
+            try:
+                for nm, one in (('x * x.inv()', x * x.inv()), ('x.inv() * x', x.inv() * x)):
+                    bad = {int(k): str(v) for k, v in zip(one.keys(), one.values()) if not ((k == 0 and v == 1) or (k != 0 and v == 0))}
+                    if bad or 0 not in one.keys():
+                        ctx.violation('inverse', {**case, 'product': nm}, '1', str(bad)[:200] or 'no scalar part', key='inv:rational-polynomial-quotient-coefficients')
+                        break
+            except ZeroDivisionError:
+                pass
+            except Exception as ex:
+                ctx.count('rational-polynomial-quotients:raises:' + type(ex).__name__)
     # (b) in-place updates between two inverses
     for sig in ([1, 1, 1], [1, 1, -1]):
         alg = make_algebra(sig)
